@@ -5,9 +5,10 @@ from props.C02 import pivot_queries, PIV_SRCS
 THR_SRCS = ['pdgstrf_thread.c', 'pmemory.c', ('util.c', ['-Dsuperlu_abort_and_exit=real_superlu_abort_and_exit'])]
 
 def thr_query(pid, n, npan, timeout=900):
-    q = Query('%s.thread.n%d.k%d' % (pid, n, npan), 'thr_h.c', THR_SRCS, defs={'N': n, 'NPAN': npan}, engine='sat', unwind=npan + 4,
+    q = Query('%s.thread.n%d.k%d' % (pid, n, npan), 'thr_h.c', THR_SRCS, defs={'N': n, 'NPAN': npan}, engine='sat', unwind=npan + 5,
               timeout=timeout, group='worker loop with symbolic callee outcomes')
     q.unwind_big = 16 * n + 8
+    q.unwindset = {'ifill.0': 16 * n + 8}
     return q
 
 def nocand_query(pid, nsupc):
@@ -16,9 +17,9 @@ def nocand_query(pid, nsupc):
                  unwind=20, timeout=300, group='pivotL on a column without candidate rows')
 
 def plan(tier, seed):
-    qs = [thr_query('C06', 6, 2), thr_query('C06', 6, 3)]
+    qs = [thr_query('C06', 6, 2)]
     if tier == 'thorough':
-        qs.append(thr_query('C06', 8, 4, 3000))
+        qs += [thr_query('C06', 6, 3, 3000), thr_query('C06', 8, 4, 6000)]
     qs += [nocand_query('C06', c) for c in (0, 1, 2)]
     # the zero-pivot return of the real pivotL (all candidates exactly zero) is part of the pivotL unit spec
     qs += [q for q in pivot_queries('C06', 'quick') if '.u0' in q.name and '.c2.' not in q.name]
